@@ -10,6 +10,7 @@
 //!   KNOWN-FINDING and the search continues;
 //! * `--replay <file>` re-executes a saved case without proptest.
 
+pub mod crash;
 pub mod panics;
 pub use panics::{catch, PanicSig};
 
@@ -112,6 +113,10 @@ pub trait SubCheck: Sync {
     fn watchdog_secs(&self) -> u64 {
         60
     }
+    /// record the running case for the process-fatal containment path (signals, absurd allocations)
+    fn crash_guard(&self) -> bool {
+        false
+    }
     /// maximum number of shrink steps after a failure (expensive cases want fewer)
     fn shrink_iters(&self) -> usize {
         400
@@ -182,6 +187,38 @@ pub struct Run {
     extra: BTreeMap<String, serde_json::Value>,
     start: Instant,
     only: Option<String>,
+    /// record every enumerated case for the process-fatal containment path (see `crash`)
+    pub crash_guard: bool,
+}
+
+/// known-finding key matching: `pattern` is "<subcheck>/<failure key>"; a leading "*/" matches any
+/// sub-check, a trailing '*' is a prefix glob
+pub fn key_matches(pattern: &str, full_key: &str) -> bool {
+    let (pat, key): (&str, &str) = match pattern.strip_prefix("*/") {
+        Some(rest) => (rest, full_key.split_once('/').map(|x| x.1).unwrap_or(full_key)),
+        None => (pattern, full_key),
+    };
+    // sub-check names may themselves contain '/', so for "*/" patterns try every split point
+    if pattern.starts_with("*/") {
+        let mut k = full_key;
+        loop {
+            let m = match pat.strip_suffix('*') {
+                Some(p) => k.starts_with(p),
+                None => k == pat,
+            };
+            if m {
+                return true;
+            }
+            match k.split_once('/') {
+                Some((_, rest)) => k = rest,
+                None => return false,
+            }
+        }
+    }
+    match pat.strip_suffix('*') {
+        Some(p) => key.starts_with(p),
+        None => key == pat,
+    }
 }
 
 fn mix(mut h: u64) -> u64 {
@@ -303,6 +340,7 @@ impl Run {
             extra: BTreeMap::new(),
             start: Instant::now(),
             only: std::env::var("VERIF_ONLY").ok().filter(|s| !s.is_empty()),
+            crash_guard: false,
         }
     }
 
@@ -326,13 +364,7 @@ impl Run {
     }
 
     fn known_match(&self, key: &str) -> Option<&KnownEntry> {
-        self.known.iter().find(|k| {
-            if let Some(prefix) = k.key.strip_suffix('*') {
-                key.starts_with(prefix)
-            } else {
-                k.key == key
-            }
-        })
+        self.known.iter().find(|k| key_matches(&k.key, key))
     }
 
     /// is `key` listed as an open known finding for this property? (used by generators that
@@ -676,10 +708,18 @@ impl Run {
                     .enumerate()
                     .map(|(ci, part)| {
                         let check = &check;
+                        let (guard, prop) = (self.crash_guard, self.property.clone());
                         scope.spawn(move || {
+                            if guard {
+                                crash::install_signal_handlers();
+                                crash::install_altstack();
+                            }
                             part.iter()
                                 .enumerate()
                                 .map(|(i, c)| {
+                                    if guard {
+                                        crash::set_current(&prop, name, &serde_json::to_string(c).unwrap_or_default());
+                                    }
                                     let mut obs = Obs::default();
                                     let r = run_fn(check, c, &mut obs);
                                     (ci * per + i, obs, r)
@@ -886,16 +926,15 @@ fn run_shard<S: SubCheck>(
     let mut runner = TestRunner::new_with_rng(config, shard_rng(seed, property, name, shard));
     let strategy = s.strategy(tier);
     let track = s.watchdog_secs() > 0;
+    let guard = s.crash_guard();
+    if guard {
+        crash::install_signal_handlers();
+        crash::install_altstack();
+    }
     let mut seen_sample_labels: BTreeSet<String> = BTreeSet::new();
     let is_known = |key: &str| {
         let full = format!("{name}/{key}");
-        known_keys.iter().any(|k| {
-            if let Some(p) = k.strip_suffix('*') {
-                full.starts_with(p)
-            } else {
-                *k == full
-            }
-        })
+        known_keys.iter().any(|k| key_matches(k, &full))
     };
     let mut unknown_failures = 0;
     for _ in 0..cases {
@@ -913,6 +952,9 @@ fn run_shard<S: SubCheck>(
         if track {
             *progress.current.lock().unwrap() = serde_json::to_string(&case).ok();
             progress.started_ms.store(now_ms(), Ordering::SeqCst);
+        }
+        if guard {
+            crash::set_current(property, name, &serde_json::to_string(&case).unwrap_or_default());
         }
         let mut obs = Obs::default();
         let r = run_case(s, &case, &mut obs);
@@ -946,6 +988,9 @@ fn run_shard<S: SubCheck>(
                         break;
                     }
                     let cur = tree.current();
+                    if guard {
+                        crash::set_current(property, name, &serde_json::to_string(&cur).unwrap_or_default());
+                    }
                     if track {
                         *progress.current.lock().unwrap() = serde_json::to_string(&cur).ok();
                         progress.started_ms.store(now_ms(), Ordering::SeqCst);
